@@ -84,6 +84,13 @@ def run(ctx):
         all_["EIP712Domain"] = sel
         d, alltypes, dv = tdgen.document(rng, types, "EIP712Domain", msg, domain_sel=sel, domain_vals=dv)
         docs.append((d, alltypes, "EIP712Domain", dv, msg, "domain-as-primary-type"))
+    # layered graphs: every level refers to the next level twice (a naive walk costs 2^depth steps; the set of types is linear)
+    for depth in (12, 24, 48) + ((96,) if thorough else ()):
+        types = {"T%d" % i: [("a", "T%d[]" % (i + 1)), ("b", "T%d[]" % (i + 1))] for i in range(depth)}
+        types["T%d" % depth] = [("v", "uint8")]
+        msg = {"a": [], "b": []}
+        d, alltypes, dv = tdgen.document(rng, types, "T0", msg)
+        docs.append((d, alltypes, "T0", dv, msg, "layered-graph/depth%d" % depth))
     # all member-order permutations of a small type graph
     base = [("from", "Person"), ("to", "Person"), ("tx", "Asset"), ("memo", "string")]
     for perm in itertools.permutations(base):
